@@ -9,7 +9,7 @@
  *              u = no explicit initialisation: the first API call initialises (n ignored)
  *         m  = before finalising make the main thread migrate to another worker
  *         x  = do not finalise (only meaningful for the last cycle)
- *       per cycle:  cycle <k> ret=<init result> nw=<myth_get_num_workers> tasks=<OS threads> main=<rank>
+ *       per cycle:  cycle <k> pre=<affinity mask of the caller before init, c.c.c> ret=<init result> nw=<myth_get_num_workers> tasks=<OS threads> main=<rank>
  *                   ranks=<r,...> stk=<default stack size attribute> bind=<attr> aff=<rank>:<ncpus>:<first>;... mig=<rank of main before fini>
  *       after fini: fini <k> state=<g_myth_init_state> tasks=<OS threads>
  *   c15_proc race <K> <C>
@@ -78,11 +78,16 @@ static int do_hist(char * spec) {
     int mig = strchr(c, 'm') != NULL, nofini = strchr(c, 'x') != NULL;
     int ret = -9, i, nw, mr = -1;
     myth_globalattr_t a;
+    char pre[8192]; int pl = 0;
+    {
+      cpu_set_t cs; CPU_ZERO(&cs); sched_getaffinity(0, sizeof cs, &cs); pre[0] = 0;
+      for (i = 0; i < CPU_SETSIZE && pl < 8000; i++) if (CPU_ISSET(i, &cs)) pl += sprintf(pre + pl, "%s%d", pl ? "." : "", i);
+    }
     if (how == 'a') { myth_globalattr_init(&a); myth_globalattr_set_n_workers(&a, n); ret = myth_init_ex(&a); }
     else if (how == 'g') { myth_globalattr_set_n_workers(NULL, n); ret = myth_init(); }
     else if (how == 'i') { ret = myth_init(); }
     nw = myth_get_num_workers();
-    printf("cycle %d ret=%d nw=%d tasks=%d main=%d ranks=", k, ret, nw, count_tasks(), myth_get_worker_num());
+    printf("cycle %d pre=%s ret=%d nw=%d tasks=%d main=%d ranks=", k, pre, ret, nw, count_tasks(), myth_get_worker_num());
     {
       myth_thread_t th[NT];
       for (i = 0; i < NT; i++) { t_rank[i] = -7; th[i] = myth_create(probe, (void *)(long)i); }
